@@ -32,7 +32,7 @@ func (c12) Plan(tier string) []mon.RunSpec {
 
 var errDst = errors.New("c12: destination failed")
 
-var c12States = []string{"fresh", "buffered", "pending-tokens", "flushed", "closed", "failed-write", "failed-flush", "failed-close", "partial-block", "double-reset", "pending-tokens", "failed-write-midblock"}
+var c12States = []string{"fresh", "buffered", "pending-tokens", "flushed", "closed", "failed-write", "failed-flush", "failed-close", "partial-block", "double-reset", "pending-tokens", "failed-write-midblock", "failed-first-op"}
 
 // applyH runs ops on w, returning per-op error-ness.
 func applyOps(w impl.Writer, data []byte, ops []gen.Op) (errs []bool, pv interface{}, st string) {
@@ -110,6 +110,21 @@ func (c12) Run(c *mon.Ctx, i int) {
 		d1 = gen.Make(r, "text", r.Range(0, ro-1))
 		ops1 = []gen.Op{{Kind: "write", N: len(d1.B)}, {Kind: "close"}}
 		sink1.FailAt, sink1.FailErr = r.Range(1, 2), errDst
+	case "failed-first-op":
+		// the very first operation of the stream fails, at its 1st..3rd destination
+		// call: Flush or Close with nothing written, or a tiny Write then Flush
+		d1 = gen.Make(r, "text", r.Range(1, 50))
+		switch r.Intn(3) {
+		case 0:
+			d1 = gen.Data{Desc: "none"}
+			ops1 = []gen.Op{{Kind: "flush"}}
+		case 1:
+			d1 = gen.Data{Desc: "none"}
+			ops1 = []gen.Op{{Kind: "close"}}
+		default:
+			ops1 = []gen.Op{{Kind: "write", N: len(d1.B)}, {Kind: "flush"}}
+		}
+		sink1.FailAt, sink1.FailErr = r.Range(1, 3), errDst
 	case "partial-block":
 		d1 = gen.Make(r, "text", r.Range(1, 65535))
 		ops1 = []gen.Op{{Kind: "write", N: len(d1.B)}}
